@@ -64,6 +64,7 @@ def driver(p, max_dt, t0, readings, out_time):
     else:
         L.append(f"  G::StateAndVariance m = mf.tick(S({lit(out_time)}){ctl});")
     L.append("  outState(\"m_\", m.state); outCov(\"mP\", m.covariance);")
+    L.append("  vsym::out(\"cfg_max_dt\", S(G::ExtendedKalmanFilter::Tag::max_dt_sec)); vsym::out(\"cfg_k\", S(G::cpp::Config::innovation_filtering));")
     L.append("  vsym::out(\"held_time\", mf._state.currentTime); outState(\"mh_\", mf._state.state.state); outCov(\"mhP\", mf._state.state.covariance);")
     # by hand, in the order C11 specifies
     L.append("  G::ExtendedKalmanFilter ekf; G::StateAndVariance cur = sv;")
@@ -165,6 +166,14 @@ def task(p, cse, k, max_dt, tier, seed):
                     part.harness_error(f"{key_base}/{name}: feasible leaf {l.decisions} with an odd number of inverse cuts")
                     continue
                 n_feasible += 1
+                # the configured hyper-parameters arrive in the generated filter exactly
+                for nm, want in (("cfg_max_dt", float(max_dt)), ("cfg_k", float(k) if k else 0.0)):
+                    got_t = z3.simplify(l.out[nm])
+                    okv = z3.is_rational_value(got_t) and got_t.numerator_as_long() / got_t.denominator_as_long() == want
+                    part.record(Q("unsat" if okv else "sat", None, 0.0, ""), f"{key_base}/{name}: generated {nm} == configured {want!r}")
+                    if not okv:
+                        path = write_replay(PID, {"key": f"config/{nm}", "info": dict(sinfo, kind="config", field=nm, want=want), "inputs": {}, "got": str(got_t)})
+                        part.violation(f"config/{nm}", f"generated filter carries {nm}={got_t} but {want!r} was configured", path)
                 pairs = []
                 for nm, t in l.out.items():
                     if nm.startswith("m_"):
@@ -264,7 +273,7 @@ def configs(tier, seed):
         out.append((base, True, None, 0.1))
         out.append((base.restrict(control=False, calibration=False), True, None, 0.05))
         out.append((base.restrict(control=True, calibration=False, sensors=["one"]), True, None, 0.1))
-        out.append((base.restrict(control=False, calibration=True, sensors=[]), True, None, 0.25))
+        out.append((base.restrict(control=False, calibration=True, sensors=[]), True, None, 1.0 / 3.0))
         return out
     for ctl in (True, False):
         for cal in (True, False):
@@ -276,6 +285,8 @@ def configs(tier, seed):
     out.append((CP.P10().restrict(control=False), True, None, 1.0 / 3.0))
     out.append((CP.P1(), True, 5.0, 0.1))
     out.append((CP.P8(), True, None, 0.5))
+    out.append((CP.P1(), True, None, 2.5e-7))
+    out.append((CP.P8(), True, 0.7, 1.0 / 30.0))
     return out
 
 
@@ -311,6 +322,15 @@ def replay(path):
             print("REPRODUCED: does not compile\n", ex.log[-1500:])
             return 1
         if info["kind"] == "compile":
+            print("not reproduced")
+            return 0
+        if info["kind"] == "config":
+            e = concrete_inputs(p, readings, random.Random(0))
+            outs, _, _ = cf.run_concrete("", e)
+            print(info["field"], outs[info["field"]], "configured", info["want"])
+            if outs[info["field"]] != info["want"]:
+                print("REPRODUCED")
+                return 1
             print("not reproduced")
             return 0
         outs, _, _ = cf.run_concrete("", r["inputs"])
